@@ -25,6 +25,25 @@ if TYPE_CHECKING:
     from ..protocol.request import TitanRequest
 
 
+def _resolve_fully(path: Path) -> Path | None:
+    """Resolve a path to its real location.
+
+    Path.resolve() gives up at a symlink loop and returns the rest of the path
+    unresolved. Such a result may still lead through symlinks, so it must not
+    be mistaken for a real location (and compared with a root directory).
+
+    Args:
+        path: The path to resolve.
+
+    Returns:
+        The resolved path, or None if the path cannot be resolved completely.
+    """
+    resolved = path.resolve()
+    if resolved.resolve() != resolved:
+        return None
+    return resolved
+
+
 class RequestHandler(ABC):
     """Abstract base class for request handlers.
 
@@ -106,8 +125,10 @@ class StaticFileHandler(RequestHandler):
 
         # Construct the full file path
         try:
-            file_path = (self.document_root / requested_path).resolve()
+            file_path = _resolve_fully(self.document_root / requested_path)
         except (ValueError, OSError, RuntimeError):
+            file_path = None
+        if file_path is None:
             # e.g. an encoded NUL byte or a symlink loop
             return GeminiResponse(status=StatusCode.NOT_FOUND.value, meta="Not found")
 
@@ -124,11 +145,14 @@ class StaticFileHandler(RequestHandler):
                 if index_path.exists() and index_path.is_file():
                     # The index file may itself be a symlink: resolve it and
                     # apply the path traversal protection to the real target
-                    file_path = index_path.resolve()
-                    if not self._is_safe_path(file_path):
+                    resolved_index = _resolve_fully(index_path)
+                    if resolved_index is None or not self._is_safe_path(
+                        resolved_index
+                    ):
                         return GeminiResponse(
                             status=StatusCode.NOT_FOUND.value, meta="Not found"
                         )
+                    file_path = resolved_index
                     index_found = True
                     break
 
@@ -386,8 +410,8 @@ class FileUploadHandler(UploadHandler):
             return await self._handle_delete(request.path)
 
         # 5. Validate path (path traversal protection)
-        target = (self.upload_dir / request.path.lstrip("/")).resolve()
-        if not self._is_safe_path(target):
+        target = _resolve_fully(self.upload_dir / request.path.lstrip("/"))
+        if target is None or not self._is_safe_path(target):
             return GeminiResponse(
                 status=StatusCode.BAD_REQUEST.value,
                 meta="Invalid path",
@@ -452,9 +476,9 @@ class FileUploadHandler(UploadHandler):
                 meta="Delete operations are disabled",
             )
 
-        target = (self.upload_dir / path.lstrip("/")).resolve()
+        target = _resolve_fully(self.upload_dir / path.lstrip("/"))
 
-        if not self._is_safe_path(target):
+        if target is None or not self._is_safe_path(target):
             return GeminiResponse(
                 status=StatusCode.BAD_REQUEST.value,
                 meta="Invalid path",
